@@ -845,7 +845,28 @@ func checkSymmetry(c *core.Ctx, prog *core.Prog, r *core.Rule) {
 	}
 	// reviewed predicates in equalNumber
 	if fn := prog.Func(pkgJSON, "compare.equalNumber"); fn != nil {
-		for _, call := range core.Calls(fn) {
+		// helpers of package json that equalNumber hands part of the decision to are held to the same list
+		work := []*ssa.Function{fn}
+		seenFn := map[*ssa.Function]bool{fn: true}
+		var calls []ssa.CallInstruction
+		for len(work) > 0 {
+			f := work[0]
+			work = work[1:]
+			for _, call := range core.Calls(f) {
+				callee := core.CalleeName(call.Common())
+				if _, reviewed := reviewedNumberPredicates[callee]; !reviewed {
+					if cal := call.Common().StaticCallee(); cal != nil && core.FuncPkgPath(cal) == pkgJSON && len(cal.Blocks) > 0 && len(seenFn) < 8 {
+						if !seenFn[cal] {
+							seenFn[cal] = true
+							work = append(work, cal)
+						}
+						continue
+					}
+				}
+				calls = append(calls, call)
+			}
+		}
+		for _, call := range calls {
 			callee := core.CalleeName(call.Common())
 			if strings.HasPrefix(callee, "builtin") {
 				continue
